@@ -88,6 +88,16 @@ Theorem C13_openn1_remove_keeps_bound :
     BucketOps.N1.cnt rv mc d' = BucketOps.N1.cnt rv mc d - 1.
 Proof. exact BucketOps.N1.rem_spec. Qed.
 Print Assumptions C13_openn1_remove_keeps_bound.
+(* IsFull -- the room test of HashSet::pvAddNogrow -- is true exactly when the count bits say maxCount *)
+Theorem C13_open2n2_isfull_iff_count_is_max :
+  forall b, BucketOps.O2.good b -> 0 <= BucketOps.O2.cnt b <= 3 -> (BucketOps.O2.full b = true <-> BucketOps.O2.cnt b = 3).
+Proof. exact BucketOps.O2.full_iff. Qed.
+Print Assumptions C13_open2n2_isfull_iff_count_is_max.
+Theorem C13_openn1_isfull_iff_count_is_max :
+  forall rv mc, 1 <= mc <= 7 -> forall d, BucketOps.N1.good rv mc d ->
+    (Gen_OpenN1_ops.IsFull rv mc d = true <-> BucketOps.N1.cnt rv mc d = mc).
+Proof. exact BucketOps.N1.full_iff. Qed.
+Print Assumptions C13_openn1_isfull_iff_count_is_max.
 (* the constructor / Clear (pvSetEmpty) give the state every history starts from: reachable, count 0, bound 0 *)
 Theorem C13_open2n2_empty_bucket :
   BucketOps.O2.good BucketOps.O2.empty /\ BucketOps.O2.cnt BucketOps.O2.empty = 0 /\ BucketOps.O2.dec BucketOps.O2.empty = 0.
@@ -120,10 +130,12 @@ Theorem C13_open2n2_bucket_counts_exact :
   BucketOps.O2.cnt (OpenTable.bd _ s i) = Z.of_nat (length (OpenTable.bk _ s i)) /\ (length (OpenTable.bk _ s i) <= 3)%nat.
 Proof. exact OpenInstances.open2n2_counts_exact. Qed.
 Print Assumptions C13_open2n2_bucket_counts_exact.
-(* ... and an insertion reports "Hash table is full" only when no bucket of the table has room. *)
+(* ... and an insertion into any reachable table reports "Hash table is full" only when no bucket of the table has
+   room; the probing loop of the model tests the generated IsFull, as HashSet::pvAddNogrow does. *)
 Theorem C13_open2n2_insert_fails_only_if_all_buckets_full :
-  forall n h (s : OpenTable.table BucketOps.O2.st) k a,
+  forall n h ops k a,
   0 <= n <= 63 -> (forall k, 0 <= h k < 2 ^ n) ->
+  let s := fold_left (OpenInstances.o2_step n h) ops OpenInstances.o2_empty in
   OpenInstances.o2_add n h s k a = None ->
   forall b, 0 <= b < 2 ^ n -> (3 <= length (OpenTable.bk _ s b))%nat.
 Proof. exact OpenInstances.open2n2_full_only_if_all_full. Qed.
@@ -145,8 +157,9 @@ Theorem C13_open8_openn1_bucket_counts_exact :
 Proof. exact OpenInstances.open8_counts_exact. Qed.
 Print Assumptions C13_open8_openn1_bucket_counts_exact.
 Theorem C13_open8_openn1_insert_fails_only_if_all_buckets_full :
-  forall rv mc n h (s : OpenTable.table (Z -> Z)) k a,
-  0 <= n <= 63 -> (forall k, 0 <= h k < 2 ^ n) ->
+  forall rv mc n h ops k a,
+  1 <= mc <= 7 -> 0 <= n <= 63 -> (forall k, 0 <= h k < 2 ^ n) ->
+  let s := fold_left (OpenInstances.n1_step rv mc n h) ops (OpenInstances.n1_empty mc) in
   OpenInstances.n1_add rv mc n h s k a = None ->
   forall b, 0 <= b < 2 ^ n -> (Z.to_nat mc <= length (OpenTable.bk _ s b))%nat.
 Proof. exact OpenInstances.open8_full_only_if_all_full. Qed.
